@@ -319,6 +319,10 @@ def bsc_evaluated(rep: Report, fi: FuncInfo) -> Optional[int]:
             if any(isinstance(b, ast.BinOp) and isinstance(b.op, (ast.Add, ast.Sub)) and any(isinstance(o, ast.Name) and o.id == nm for o in (b.left, b.right)) for b in ast.walk(fi.node)):
                 return None
     bad = []
+    from ..frag import coverage_scope
+
+    scope = coverage_scope()
+    scope.__enter__()
     for bits in BSC_INPUTS:
         for bipolar in (False, True):
             x = [[(2 * b - 1 if bipolar else b) * 1.0 for b in r] for r in bits]
@@ -326,16 +330,23 @@ def bsc_evaluated(rep: Report, fi: FuncInfo) -> Optional[int]:
             want = [[(2 * b - 1 if bipolar else b) for b in r] for r in want]
             try:
                 run_fragment(fi.body, {"x": x}, {"self.crossover_prob": 0.5}, ctors={"torch.rand_like": shaped}, max_steps=40000)
+                scope.__exit__()
                 return None
             except FragReturn as ret:
                 got = ret.value
             except Unfoldable:
+                scope.__exit__()
                 return None
             if not (isinstance(got, list) and len(got) == 2 and all(isinstance(r, list) and len(r) == 4 and all(isinstance(v, (int, float)) and not isinstance(v, bool) for v in r) for r in got)):
+                scope.__exit__()
                 return None
             if [[float(v) for v in r] for r in got] != [[float(v) for v in r] for r in want]:
                 bad.append(f"x = {x[0]}..., flips drawn at {[[int(d < 0.5) for d in dr] for dr in BSC_DRAWS][0]}...: output {got[0]}... instead of {want[0]}...")
+    scope.__exit__()
     construct = "forward evaluated on {0,1} and -1/+1 words with a fixed table of uniform draws"
+    gap = scope.note([fi.node])
+    if not bad and gap:
+        return None
     if bad:
         rep.violation("TRANSITION", fi, construct, "the output is not the input with the drawn positions exchanged for the other symbol of the input's alphabet: " + "; ".join(bad[:2]), node=fi.node)
     else:
